@@ -152,8 +152,32 @@ ResolveNoIndex(value) ==
   LET all == [i \in DOMAIN Registrations |-> <<Registrations[i].tag, Registrations[i].re>>]
       t == FirstMatch(all, 1, value)
   IN  IF t # "<none>" THEN t ELSE DEFAULT_SCALAR_TAG
-\* every regexp that matches (for the "no ordering effect" check)
+\* every regexp that matches
 AllMatching(value) == {Registrations[i].tag : i \in {j \in DOMAIN Registrations : FullMatch(Registrations[j].re, value)}}
+\* the tags of the index list of the first character whose regexp matches (the order of the list has no effect
+\* exactly when this never has two members)
+CandidatesMatching(value) ==
+  LET rs == IF value = <<>> THEN Get(Index, "") ELSE Get(Index, value[1]) IN
+  {rs[i][1] : i \in {j \in DOMAIN rs : FullMatch(rs[j][2], value)}}
+
+\* Static analysis of a regexp: can it match the empty text, and with which characters can a match begin?
+RECURSIVE Nullable(_), FirstChars(_), FirstOfSeq(_, _)
+Nullable(r) == CASE r.k = "cls" -> FALSE
+                 [] r.k = "seq" -> \A i \in DOMAIN r.a : Nullable(r.a[i])
+                 [] r.k = "alt" -> \E i \in DOMAIN r.a : Nullable(r.a[i])
+                 [] r.k \in {"opt", "star"} -> TRUE
+                 [] r.k \in {"plus", "grp"} -> Nullable(r.r)
+FirstChars(r) == CASE r.k = "cls" -> r.c
+                   [] r.k = "seq" -> FirstOfSeq(r.a, 1)
+                   [] r.k = "alt" -> UNION {FirstChars(r.a[i]) : i \in DOMAIN r.a}
+                   [] OTHER -> FirstChars(r.r)
+FirstOfSeq(a, i) == IF i > Len(a) THEN {}
+                    ELSE FirstChars(a[i]) \cup (IF Nullable(a[i]) THEN FirstOfSeq(a, i + 1) ELSE {})
+\* The index loses nothing, for texts of any length: whatever a regexp can match begins with one of the characters
+\* it is registered under (and the empty text is registered as '').
+IndexComplete == \A i \in DOMAIN Registrations :
+                   LET reg == Registrations[i] keys == {reg.first[j] : j \in DOMAIN reg.first} IN
+                   FirstChars(reg.re) \subseteq keys /\ (Nullable(reg.re) => "" \in keys)
 
 (***************************************************************************)
 (* models of the Python builtins the converters call                       *)
